@@ -168,6 +168,15 @@ func (q *queue) processACK(seq uint8) bool {
 		return false
 	}
 
+	// Sequence numbers live in [0, s). An ACK outside of that range can not
+	// refer to any packet of ours and must not move the base.
+	if seq >= q.cfg.s {
+		q.cfg.log.Tracef("ACK seq %d is outside of the sequence space. "+
+			"Ignoring.", seq)
+
+		return false
+	}
+
 	q.syncer.processACK(seq)
 
 	q.baseMtx.Lock()
